@@ -1303,6 +1303,44 @@ func c18R5(p *Prog, r *Report) {
 		}
 	}
 	r.Check(okEn == 2, rule, "service.(*ServerConfig).Initialize:enabled-flags", p.posStr(si.Body.Pos()), "tcpEnabled/udpEnabled cover both representations", "tcpEnabled/udpEnabled do not account for both the legacy flag and the listener arrays")
+	// the raw legacy flags decide nothing on their own: they are only tested (to synthesise the
+	// legacy listener, to warn, to migrate) or folded into the derived flags — what is handed to
+	// the protocol constructors is the derived value, which also counts the listener arrays
+	nLegacy := 0
+	p.AllFuncs(p.Pkg("service"), func(top *FuncCtx) {
+		for _, fc := range allCtxs(p, top) {
+			info := fc.Info()
+			for _, fa := range fc.FieldAccesses(mp("service"), "ServerConfig", map[string]bool{"EnableTCP": true, "EnableUDP": true}) {
+				if fa.Write {
+					continue
+				}
+				nLegacy++
+				vx := fc.G.V[fa.V]
+				ok := vx.Kind == VCond || vx.Kind == VSwitchCase
+				how := "tested"
+				if as, isAs := vx.Node.(*ast.AssignStmt); isAs && vx.Kind == VStmt && len(as.Lhs) == 1 && len(as.Rhs) == 1 {
+					if ls, isSel := ast.Unparen(as.Lhs[0]).(*ast.SelectorExpr); isSel {
+						if f, _ := info.Uses[ls.Sel].(*types.Var); f != nil && f.IsField() && namedTypeName(info.TypeOf(ls.X)) == "ServerConfig" {
+							// the derivation: legacy flag || len(listeners) > 0
+							norm := strings.Join(strings.Fields(exprStr(as.Rhs[0])), "")
+							if strings.Contains(norm, "||len(") && strings.HasSuffix(norm, ">0") {
+								ok = true
+								how = "folded into " + f.Name()
+							}
+						}
+					}
+				}
+				// inside the condition of an if / the tag of a switch held in the same vertex
+				if !ok {
+					if _, isIf := vx.Stmt.(*ast.IfStmt); isIf && vx.Kind == VCond {
+						ok = true
+					}
+				}
+				r.Check(ok, rule, fmt.Sprintf("%s:legacy-flag-read:%s@%s", fc.Name, fa.Field.Name(), exprStr(vx.Node)), p.posStr(fa.Sel.Pos()), how, "the deprecated "+fa.Field.Name()+" flag is used as a value ("+exprStr(vx.Node)+"): a server configured through the listener arrays alone gets the disabled variant (e.g. ciphers built without their UDP part) and fails when traffic arrives, while the legacy spelling of the same configuration works")
+			}
+		}
+	})
+	r.Count("legacy_flag_reads", nLegacy)
 	// builders: default case is an error
 	for _, b := range []string{"TCPRelay", "UDPRelay"} {
 		fc := p.Func("service", "ServerConfig", b)
